@@ -10,14 +10,23 @@ TABLE = {
                   "ValueError; QuantityError is the documented result for user classes",
         "properties": None,
     },
-    "T3|lex_char|ValueError from raise ValueError [else-of preserve['state'] in (Preserve.UNIT, Preserve.QUOTE, Preserve.NONDECIM…]": {
+    "T3|lex_char|ValueError from raise ValueError*": {
         "reason": "unreachable: the Preserve enum is closed (FALSE, COMMENT, UNIT, QUOTE, NONDECIMAL) and every member "
                   "is handled by the preceding branches; the preserve dict is only ever built by the lexer helpers",
         "properties": None,
     },
-    "T3|lex_multichar_comments|ValueError from raise ValueError [if len(comments) == 0]": {
+    "T3|lex_multichar_comments|ValueError from raise ValueError*": {
         "reason": "unreachable: lex_comment() calls lex_multichar_comments only when char is in c_info['multi_chars'], "
                   "which is non-empty only if the grammar has a multi-character comment pair, so comments is not empty",
         "properties": None,
     },
 }
+
+
+def matches(key, patterns):
+    """Exact key, or a pattern ending in '*' that is a prefix of the key (one symbol and exception class; the guard
+    text of a raise is not part of the identity of a triaged site)."""
+    for p in patterns:
+        if p == key or (p.endswith("*") and key.startswith(p[:-1])):
+            return True
+    return False
